@@ -59,11 +59,16 @@ def make_target(lab):
     return P.expose(Target)
 
 
-def hostile_bytes(item, ser, rng, seq):
+def hostile_bytes(item, ser, rng, seq, base="invoke"):
+    """base: the valid message the structural mutations start from (an INVOKE, or the CONNECT that opens a connection)"""
     from Pyro5 import protocol, serializers
     s = serializers.serializers[ser]
     ann = {"ABCD": b"xyz", "EFGH": b""}
-    req = L.invoke_msg("target", "echo", [1], ser=ser, seq=seq, annotations=ann)
+    mtype = protocol.MSG_INVOKE if base == "invoke" else protocol.MSG_CONNECT
+    if base == "invoke":
+        req = L.invoke_msg("target", "echo", [1], ser=ser, seq=seq, annotations=ann)
+    else:
+        req = L.build(protocol.MSG_CONNECT, 0, seq, s.serializer_id, s.dumps({"handshake": "hello", "object": "target"}), annotations=ann)
     hdr = 40
     annsize = sum(8 + len(v) for v in ann.values())
 
@@ -96,11 +101,11 @@ def hostile_bytes(item, ser, rng, seq):
         data = L.patch(req, 6, "!B", rng.choice([0, 2, 3, 5, 7, 99, 255]))
     elif item == "undecodable_payload":
         junk = bytes(rng.randrange(256) for _ in range(30))
-        data = L.build(protocol.MSG_INVOKE, rng.choice([0, protocol.FLAGS_COMPRESSED]), seq, s.serializer_id, junk)
+        data = L.build(mtype, rng.choice([0, protocol.FLAGS_COMPRESSED]), seq, s.serializer_id, junk)
         if data[8:10] != b"\x00\x02" and rng.random() < 0.5:
             data = L.patch(data, 8, "!H", protocol.FLAGS_COMPRESSED)       # claims to be compressed, is not
     elif item == "payload_wrong_shape":
-        data = L.build(protocol.MSG_INVOKE, 0, seq, s.serializer_id, s.dumps(rng.choice([42, "text", [1, 2], {"a": 1}, None])))
+        data = L.build(mtype, 0, seq, s.serializer_id, s.dumps(rng.choice([42, "text", [1, 2], {"a": 1}, None])))
     elif item.startswith("trunc_"):
         lo, hi = {"trunc_prefix_close": (1, 5), "trunc_header_close": (6, 39), "trunc_ann_close": (40, 40 + annsize - 1),
                   "trunc_payload_close": (40 + annsize, len(req) - 1)}[item]
@@ -138,12 +143,14 @@ class Attacker:
         self.seq = 0
 
 
-def run_scripts(scripts, servertype, timeout, seed):
+def run_scripts(scripts, servertype, timeout, seed, full=False):
+    """full: thread server whose pool is exhausted by the witness and a second well-behaved client, so that every further
+    connection is refused by the accept loop itself, which reads the newcomer's first message inline"""
     rng = random.Random(seed)
     traces = []
 
     def fresh_lab():
-        lab = L.Lab(servertype=servertype, commtimeout=timeout, poolsize=8)
+        lab = L.Lab(servertype=servertype, commtimeout=timeout, poolsize=2 if full else 8)
         lab.daemon.register(make_target(lab)(), "target")
         return lab
 
@@ -158,7 +165,7 @@ def run_scripts(scripts, servertype, timeout, seed):
             hang = False
             witness_ok = fresh_ok = True
             att = {1: Attacker(), 2: Attacker()}
-            w = None
+            w = blocker = None
             tok = [100]
 
             def wcall():
@@ -191,9 +198,33 @@ def run_scripts(scripts, servertype, timeout, seed):
                 w._pyroSerializer = ser
                 w._pyroBind()
                 lab.log.append({"e": "First", "c": 1, "accept": True, "mustreason": False})
+                if full:
+                    blocker = P.Proxy(lab.daemon.uriFor("target"))
+                    blocker._pyroSerializer = ser
+                    blocker._pyroBind()
+                    lab.log.append({"e": "First", "c": 2, "accept": True, "mustreason": False})
+                    sc.quiesce()
+                    if lab.server_connections() != 2:
+                        raise util.MachineryError("the worker pool is not exhausted (%d busy)" % lab.server_connections())
                 for step in script:
                     a = step["a"]
-                    if a == "attack":
+                    if a == "attack" and full:
+                        # the pool is exhausted: whatever arrives first on a new connection is read by the accept loop
+                        at = att[step["who"]]
+                        at.rc = lab.raw()
+                        at.seq = 1
+                        lab.log.append({"e": "First", "c": at.rc.cid, "accept": False, "mustreason": False})
+                        data, close = hostile_bytes(step["item"], ser, rng, at.seq, base="connect" if step["pre"] else "invoke")
+                        at.rc.send(data)
+                        if close:
+                            at.rc.close()
+                        sc.quiesce()
+                        lab.log.append({"e": "Ended", "c": at.rc.cid})
+                        drop(at)
+                        sc.quiesce()
+                    elif a == "fresh" and full:
+                        fresh()         # refused for lack of workers; it must not hang or hurt anybody
+                    elif a == "attack":
                         at = att[step["who"]]
                         if at.rc is not None and at.rc.server_closed():
                             drop(at)
@@ -208,7 +239,8 @@ def run_scripts(scripts, servertype, timeout, seed):
                             else:
                                 lab.log.append({"e": "First", "c": at.rc.cid, "accept": False, "mustreason": False})
                         at.seq += 1
-                        data, close = hostile_bytes(step["item"], ser, rng, at.seq)
+                        data, close = hostile_bytes(step["item"], ser, rng, at.seq,
+                                                    base="connect" if newconn and step["pre"] and rng.random() < 0.5 else "invoke")
                         at.rc.send(data)
                         if close:
                             at.rc.close()
@@ -235,6 +267,11 @@ def run_scripts(scripts, servertype, timeout, seed):
                         lab.log.append({"e": "Ended", "c": at.rc.cid})
                         drop(at)
                 sc.quiesce()
+                if blocker is not None:
+                    lab.log.append({"e": "Ended", "c": 2})
+                    blocker._pyroRelease()
+                    blocker = None
+                    sc.quiesce()
                 if timeout:
                     sc.sleep(0.5)
                 witness_ok = wcall() and witness_ok
@@ -251,6 +288,8 @@ def run_scripts(scripts, servertype, timeout, seed):
             try:
                 if w is not None:
                     w._pyroRelease()
+                if blocker is not None:
+                    blocker._pyroRelease()
                 for at in att.values():
                     drop(at)
                 sc.quiesce()
@@ -295,6 +334,14 @@ def run(ctx):
                 js = js[::3]
             traces += run_scripts(js, st, tmo, ctx.seed)
             metas += [{"script": s, "ser": ser, "server": st, "timeout": tmo} for s, ser in js]
+    # the thread server with an exhausted pool: the accept loop itself reads the first message of every refused connection
+    def attacks(s):
+        return any(st["a"] == "attack" for st in s)
+    full_scripts = [s for s in s1 if attacks(s)] + [s for s in scripts[len(s1):] if attacks(s)][::ctx.pick(8, 2)]
+    for tmo in (0.0, 3.0):
+        js = [(s, sers[(i + (tmo > 0)) % 4]) for i, s in enumerate(full_scripts)]
+        traces += run_scripts(js, "thread", tmo, ctx.seed, full=True)
+        metas += [{"script": s, "ser": ser, "server": "thread", "timeout": tmo, "full": True} for s, ser in js]
     for m in metas:
         ctx.count(json.dumps(m, sort_keys=True))
     for i in (0, len(traces) // 2, len(traces) - 1):
@@ -304,7 +351,8 @@ def run(ctx):
         v05 = v.split("|")[2]
         if v05:
             items = sorted({("pre:" if s["pre"] else "") + s["item"] for s in m["script"] if s["a"] == "attack"})
-            ctx.violation("%s [server=%s timeout=%s items=%s]" % (v05, m["server"], "on" if m["timeout"] else "off", ",".join(items)[:80]),
+            ctx.violation("%s [server=%s%s timeout=%s items=%s]" % (v05, m["server"], " pool-exhausted" if m.get("full") else "",
+                                                                  "on" if m["timeout"] else "off", ",".join(items)[:80]),
                           {"scenario": m, "trace": tr})
 
 
@@ -314,7 +362,7 @@ def replay(ctx, path):
     bad = 0
     for case in rep["cases"]:
         m = case["scenario"]
-        tr = run_scripts([(m["script"], m["ser"])], m["server"], m["timeout"], ctx.seed)[0]
+        tr = run_scripts([(m["script"], m["ser"])], m["server"], m["timeout"], ctx.seed, full=m.get("full", False))[0]
         v, _ = tlc.validate(ctx, "Trace_Daemon", [tr], cfg="Trace_Daemon.cfg")
         print("replay:", m["script"], m["ser"], m["server"], "->", v[0].split("|")[2] or "accepted")
         for e in tr:
